@@ -16,6 +16,7 @@
 (*   guest_ret          the sandboxed function body returns                *)
 (*   inv_end            the invocation returned to the application         *)
 (*   setstate           the application set a sandbox's transition state   *)
+(*   tmpsbx             a callback body created + destroyed one more sandbox*)
 (*   timing             the timing records collected since the last one    *)
 (*                                                                         *)
 (* Abstract state: entry[s][e] = function registered behind entry point e; *)
@@ -110,6 +111,10 @@ Allowed(st, ev) ==
     [] ev.e = "setstate" ->
          \* the application changes the transition state of a sandbox (from a callback body)
          Len(st.stack) > 0 /\ Top(st).k = "cb" /\ Top(st).ran /\ ev.s \in DOMAIN st.tstate
+    [] ev.e = "tmpsbx" ->
+         \* the application creates and destroys one more sandbox of the same type (from a callback
+         \* body): allowed there, and it changes nothing about the crossings in progress
+         Len(st.stack) > 0 /\ Top(st).k = "cb" /\ Top(st).ran /\ ev.out = "ok"
     [] ev.e = "guest_throw" ->
          Len(st.stack) > 0 /\ Top(st).k = "inv" /\ Top(st).ran /\ ~st.unw
     [] ev.e = "guest_call" ->
